@@ -68,6 +68,8 @@ class AliasMod(object):
         self.mod = {}  # qual -> {param: witness}
         self.ret = {}  # qual -> set of roots ('p', name) | ('g', qual)
         self._memo = {}
+        self._open = set()
+        self._heads = set()
         self._loops = {}
         self._cur = None
         self.rounds = 0
@@ -95,11 +97,55 @@ class AliasMod(object):
         key = (t.id, f.qual)
         r = self._memo.get(key)
         if r is not None:
+            if key in self._open:
+                self._heads.add(key)  # a cycle through a loop variable: what is computed below this point is partial
             return r
         self._memo[key] = frozenset()  # cycle guard
+        self._open.add(key)
         r = frozenset(self._roots(t, f))
-        self._memo[key] = r
+        self._open.discard(key)
+        self._heads.discard(key)
+        if self._heads & self._open:
+            # computed while a cycle head above us was still open: valid for that computation (least fixpoint),
+            # but not a complete answer for this term on its own - do not remember it
+            del self._memo[key]
+        else:
+            self._memo[key] = r
         return r
+
+    def ident(self, t, f, _seen=None):
+        """Caller-owned objects the value of ``t`` may *be* (as opposed to hold): a freshly built list, dict or
+        comprehension is nobody's object whatever is put into it, and an element of a list display that is only
+        ever filled through `xs[k].append(..)` is that element."""
+        if _seen is None:
+            _seen = set()
+        if t.id in _seen:
+            return frozenset()
+        _seen.add(t.id)
+        op = t.op
+        if op in ("list", "dict", "set", "tuple", "comp"):
+            return frozenset()
+        if op == "upd":
+            return self.ident(t.a[0], f, _seen)
+        if op == "loop":
+            return self.ident(t.a[2], f, _seen) | self.ident(t.a[3], f, _seen)
+        if op == "loopvar":
+            out = self.ident(t.a[2], f, _seen)
+            body = self._loop_body(f, t.a[0], t.a[1])
+            if body is not None:
+                out = out | self.ident(body, f, _seen)
+            return out
+        if op == "ite":
+            c, a, b = t.a
+            if not (c.op == "cmp" and c.a[0] in ("is", "isnot")):
+                return self.ident(a, f, _seen) | self.ident(b, f, _seen)
+        if op == "sub":
+            base, idx = t.a
+            if idx.op == "const" and isinstance(idx.a[0], (int, float)) and not isinstance(idx.a[0], bool) and idx.a[0] == int(idx.a[0]):
+                er = self._element_roots(base, int(idx.a[0]), f, contents=False)
+                if er is not None:
+                    return frozenset(er)
+        return self.roots(t, f)
 
     def _roots(self, t, f):
         op = t.op
@@ -174,10 +220,68 @@ class AliasMod(object):
                 return set()
             if idx.op == "slice" and self._is_list(base, f):
                 return set()
+            if idx.op == "const" and isinstance(idx.a[0], (int, float)) and not isinstance(idx.a[0], bool) and idx.a[0] == int(idx.a[0]):
+                er = self._element_roots(base, int(idx.a[0]), f)
+                if er is not None:
+                    return er
             return self.roots(base, f)
         if op == "call":
             return self._call_roots(t, f)
         return set()
+
+    def _element_roots(self, base, k, f, contents=True):
+        """`xs[k]` where xs was created as a list display and is only ever updated *through* its elements
+        (`xs[j].append(v)`): the k-th element and what was put into it, not what the sibling elements hold.
+        None when the container itself is stored into or its origin is not a display."""
+        out = set()
+        seen = set()
+        stack = [base]
+        origin = None
+        stored = []
+        while stack:
+            t = stack.pop()
+            if t.id in seen:
+                continue
+            seen.add(t.id)
+            if t.op == "upd":
+                key = t.a[2]
+                if key.op != "at" or key.a[0].op != "sub":
+                    return None
+                j = key.a[0].a[1]
+                if not (j.op == "const" and isinstance(j.a[0], (int, float)) and not isinstance(j.a[0], bool)):
+                    return None
+                stored.append((int(j.a[0]), t.a[3]))
+                stack.append(t.a[0])
+            elif t.op == "loopvar":
+                stack.append(t.a[2])
+                body = self._loop_body(f, t.a[0], t.a[1])
+                if body is not None:
+                    stack.append(body)
+            elif t.op == "loop":
+                stack.append(t.a[2])
+                stack.append(t.a[3])
+            elif t.op == "ite":
+                stack.append(t.a[1])
+                stack.append(t.a[2])
+            elif t.op == "list":
+                if origin is not None and origin is not t:
+                    return None
+                if not (-len(t.a) <= k < len(t.a)) or any(x.op == "star" for x in t.a):
+                    return None
+                origin = t
+            else:
+                return None
+        if origin is None:
+            return None
+        n = len(origin.a)
+        for j, v in stored:
+            if not (-n <= j < n):
+                return None
+            if j % n == k % n and contents:
+                out |= self.roots(v, f)
+        if not contents:
+            return set(self.ident(origin.a[k], f))
+        return out | set(self.roots(origin.a[k], f))
 
     def _loop_body(self, f, lid, name):
         key = f.qual
@@ -343,7 +447,7 @@ class AliasMod(object):
                 # name += v rebinding for immutable values: only arrays/lists are written in place
                 if self._is_value_typed(old, f):
                     continue
-            rs = self.roots(old, f)
+            rs = self.ident(old, f)
             if rs:
                 out.append((m, rs))
         return out
